@@ -415,6 +415,9 @@ def table():
     T["clf:rise"] = C(make=lambda rs, nj: RandomIntervalSpectralForest(n_estimators=4, acf_lag=4, min_interval=8, random_state=rs, n_jobs=nj))
     T["clf:stsf"] = C(make=lambda rs, nj: SupervisedTimeSeriesForest(n_estimators=3, random_state=rs, n_jobs=(1 if nj is None else nj)))
     T["clf:boss"] = C(make=lambda rs, nj: BOSSEnsemble(max_ensemble_size=3, random_state=rs, n_jobs=(1 if nj is None else nj)))
+    # even ensemble sizes: votes can tie, and ties are broken with a generator derived from random_state inside predict
+    T["clf:boss_even"] = C(make=lambda rs, nj: BOSSEnsemble(max_ensemble_size=2, threshold=0.5, random_state=rs, n_jobs=(1 if nj is None else nj)))
+    T["clf:cboss_even"] = C(make=lambda rs, nj: ContractableBOSS(n_parameter_samples=6, max_ensemble_size=2, random_state=rs, n_jobs=(1 if nj is None else nj)))
     T["clf:iboss"] = C(make=lambda rs, nj: IndividualBOSS(window_size=8, word_length=4, random_state=rs, n_jobs=(1 if nj is None else nj)))
     T["clf:cboss"] = C(make=lambda rs, nj: ContractableBOSS(n_parameter_samples=6, max_ensemble_size=3, random_state=rs, n_jobs=(1 if nj is None else nj)))
     T["clf:muse"] = dict(fam="clf", conts=["nested"], njobs=False, dims=2, make=lambda rs, nj: MUSE(window_inc=4, random_state=rs))
@@ -431,7 +434,7 @@ def table():
     # a RandomState INSTANCE as random_state: not for estimators that draw from it inside an apply-type method
     # (BOSS / cBOSS / TDE tie-breaks in predict, Imputer(method="random") in transform: an instance is consumed by
     # every call, which is sklearn's documented meaning of passing an instance) nor where the docstring says "int" only
-    for k, why in (("clf:boss", "draws-in-predict"), ("clf:cboss", "draws-in-predict"), ("clf:itde", "draws-in-predict"),
+    for k, why in (("clf:boss", "draws-in-predict"), ("clf:cboss", "draws-in-predict"), ("clf:boss_even", "draws-in-predict"), ("clf:cboss_even", "draws-in-predict"), ("clf:itde", "draws-in-predict"),
                    ("clf:iboss", "draws-in-predict"), ("clf:column_ensemble", "member-draws-in-predict"),
                    ("st:imputer_random", "draws-in-transform"), ("clf:stsf", "documented-int-only")):
         if k in T:
@@ -1125,7 +1128,7 @@ def features(c, out):
 
 
 # =============================================================================== generators
-SLOW = {"clf:boss", "clf:muse", "clf:stsf", "pt:shapelets", "fc:red_forest", "clf:cboss", "clf:rise", "pt:fitted_param", "fc:tuned_grid_par", "fc:tuned", "fc:tuned_random"}
+SLOW = {"clf:boss", "clf:boss_even", "clf:cboss_even", "clf:muse", "clf:stsf", "pt:shapelets", "fc:red_forest", "clf:cboss", "clf:rise", "pt:fitted_param", "fc:tuned_grid_par", "fc:tuned", "fc:tuned_random"}
 
 
 def _seq_case(rng, key, cont, quick, variant=0, rsform=None, compact=False):
